@@ -547,8 +547,12 @@ func run(c *wk.Case) {
 		}
 		src := a.tables[tag]
 		srcName := a.name
-		if dec == "cff.Read" && t.Chance(1, 2) {
-			i := t.Draw(len(handCFF))
+		if dec == "cff.Read" && t.Chance(3, 5) {
+			// half of them with subroutines (0-7), half CID-keyed (8-19)
+			i := t.Draw(8)
+			if t.Chance(1, 2) {
+				i = 8 + t.Draw(len(handCFF)-8)
+			}
 			src, srcName = handCFF[i], fmt.Sprintf("hand-made CFF #%d (0-7 with subroutines, 8-19 CID-keyed)", i)
 			c.Count("handmade_cff_cases", 1)
 		}
